@@ -4,10 +4,11 @@ CONSTANTS
   DiskC = "A"
   DiskR = "A"
   Feat = {"usage", "msg", "stop"}
-  Feeds <- FeedsTwo
-  MaxCum = 1
+  Feeds <- FeedsOne
+  MaxCum = 2
   Steps = {1}
   Outcomes = {"ok", "fail", "hold"}
+  ZeroReports = "keys"
   RetryFailed = TRUE
   Faithful = TRUE
 INVARIANTS TypeOK AppliedIsInForce FailedIsRefused EffectiveInForce Conservation NoDoubleCount StopUnhealthy
